@@ -347,7 +347,7 @@ fn text_oracle(c: &TextCase, rec: &Rec) -> R {
 pub fn checks() -> Vec<CheckDef> {
     let mut v = checks_structured();
     #[cfg(feature = "full")]
-    v.push(super::fuzzstage::check("C15", "decode_patched", "libfuzzer-decode-patched", 150_000));
+    v.push(super::fuzzstage::check("C15", "decode_patched", "libfuzzer-decode-patched", 50_000));
     v
 }
 
